@@ -218,6 +218,13 @@ var c16BlockTxs = map[string][]string{
 	// a transaction with 253 inputs, 253 outputs and a 253-byte script inside a block (three-byte counts
 	// and lengths inside a transaction)
 	"b3wide": {"coinbase", "wide", "minimal"},
+	"b1100": func() []string { // more than a thousand transactions
+		out := []string{"coinbase"}
+		for k := 1; k < 1100; k++ {
+			out = append(out, fmt.Sprintf("var#%d", k))
+		}
+		return out
+	}(),
 	"b300": func() []string {
 		out := []string{"coinbase"}
 		for k := 1; k < 300; k++ {
@@ -377,7 +384,7 @@ func c16Refs() {
 	c16Once.Do(func() {
 		c16BlockRefs = map[string]*c16Ref{}
 		c16TxRefs = map[string]*c16Ref{}
-		for _, n := range append(append([]string{}, c16BlockNames...), "b252", "b253", "b3wide", "b300", "b65540") {
+		for _, n := range append(append([]string{}, c16BlockNames...), "b252", "b253", "b3wide", "b300", "b1100", "b65540") {
 			c16BlockRefs[n] = c16BlockRefOf(c16BuildBlock(n))
 		}
 		for _, n := range c16TxNames {
@@ -1711,7 +1718,33 @@ func runC16(c *mc.Ctx) {
 			big = append(big, c16BlockCase{Fixture: "b3wide", Ctor: ct, Ops: []string{"TxLoc", "Bytes", "Tx(1)", "TxHash(2)"}},
 				c16BlockCase{Fixture: "b3wide", Ctor: ct, Ops: []string{"Tx(2)", "TxHash(1)", "Transactions", "TxLoc", "Tx(2)"}})
 		}
-		c.Space("block: 252-, 253-, 300-transaction and wide-transaction fixtures x constructor x fixed call sequences", int64(len(big)))
+		// MANY distinct indices asked one by one before (and after) the bulk accessor: a per-index store
+		// that changes representation after some number of entries (64, 256, 1024) must keep handing out
+		// the objects it handed out before.  130 (1030 on the 1100-transaction fixture) distinct indices
+		// through Tx / TxHash alternately, then the first, the 64th and the last of them again, the bulk
+		// accessor, and three of them once more.
+		for _, fx := range []string{"b300", "b1100"} {
+			cnt := 130
+			if fx == "b1100" {
+				cnt = 1030
+			}
+			for ci, ct := range c16BlockCtors {
+				if ci >= 4 && fx == "b1100" {
+					continue // the four basic constructors on the large fixture
+				}
+				var ops []string
+				for i := 0; i < cnt; i++ {
+					if i%3 == 2 {
+						ops = append(ops, fmt.Sprintf("TxHash(%d)", i))
+					} else {
+						ops = append(ops, fmt.Sprintf("Tx(%d)", i))
+					}
+				}
+				ops = append(ops, "Tx(0)", "Tx(63)", "Tx(64)", fmt.Sprintf("Tx(%d)", cnt-2), "TxHash(2)", "Transactions", "Tx(0)", "Tx(64)", fmt.Sprintf("Tx(%d)", cnt-2))
+				big = append(big, c16BlockCase{Fixture: fx, Ctor: ct, Ops: ops})
+			}
+		}
+		c.Space("block: 252-, 253-, 300-, 1100-transaction and wide-transaction fixtures x constructor x fixed call sequences", int64(len(big)))
 		c16ParFor(c, int64(len(big)), func(w *mc.W, i int64) { c16EvalBlock(w, big[i]) })
 		// 65536 transactions: locations, bytes and the two ends, every constructor (no final sweep)
 		var huge []c16BlockCase
